@@ -1157,7 +1157,13 @@ impl<'a, S: Suite> W<'a, S> {
         let mut pks = self.pks.clone();
         let rot = self.t.usize(pks.len());
         pks.rotate_left(rot);
-        let kk = if mode == CoordMode::ThresholdTooLow { (self.tmin - 1).max(2).min(k) } else { k };
+        let mut kk = if mode == CoordMode::ThresholdTooLow { (self.tmin - 1).max(2).min(k) } else { k };
+        if mode == CoordMode::Proper && k > self.tmin && self.t.chance(1, 2) {
+            // a coordinator configured with the group's real threshold t assembling over a larger signer set
+            // (the set was chosen by a coordinator object asked for k > t signers): any set of at least t works
+            kk = self.tmin;
+            self.out.probe("probe.frost.threshold_coordinator_assembles_larger_set");
+        }
         let coord = S::coord_new(kk, self.gpk).unwrap();
         let r = guard_c19(
             self.out,
